@@ -3,6 +3,8 @@
   R1 every user-settable schema field takes part in the diff
   R2 every diffed field is expressible in DDL (or is in an audited baseline)
   R3 template-method discipline of Create / Alter / Delete commands
+  R4 suppression / propagation facts: when a command may vanish from the
+     DDL text, and when a deletion propagates to inheritors
 """
 from __future__ import annotations
 
@@ -103,6 +105,13 @@ NOT_DDL_SETTABLE_BASELINE = {
 R1_EXCEPTIONS = {
     ('Index', 'code'): 'abstract index implementation code: only set on '
                        'standard-library indexes, never by user DDL',
+    ('Function', 'reflected_language'):
+        'derived from `language` (which is diffed) when the command is '
+        'built from AST; never set on its own',
+    ('Pointer', 'source'):
+        'the owning type / link: a pointer is created nested inside its '
+        'source and never moves; differences in source are differences in '
+        'the (diffed) qualified name',
 }
 
 
@@ -154,6 +163,10 @@ def field_tables(repo: Repo):
                                   flag(call, 'ddl_identity', 'False'))
             eph = flag(call, 'ephemeral', 'False') == 'True'
             o = owner.split('.')[-1]
+            if not settable and not eph and cc in (None, 'None') and \
+                    ast_mentions(repo, owner, fname):
+                # set from / rendered to dedicated DDL syntax by an AST hook
+                settable = True
             if settable and not eph and cc in (None, 'None'):
                 r1.append((o, fname, owner))
             if not eph and cc not in (None, 'None') and not settable \
@@ -202,7 +215,7 @@ def run(repo: Repo, ctx, descriptive: bool = False) -> None:
 
     if not descriptive:
         # ---- R1 ------------------------------------------------------------
-        ctx.floor('C02.R1', 1)
+        ctx.floor('C02.R1', 3)
         ctx.ob('C02.R1', 'scope', True,
                sample=f'{n} SchemaField declarations in diff scope; '
                       f'{len(r1)} settable without a coefficient')
@@ -333,3 +346,84 @@ def run(repo: Repo, ctx, descriptive: bool = False) -> None:
                        sample='calls super on every normal path')
     if n_over < 100:
         raise AnalysisError(f'C02.R3: only {n_over} hook overrides found')
+
+    _r4(repo, ctx)
+
+
+def _r4(repo: Repo, ctx) -> None:
+    from ..absint import Facts, open_nodes
+    from ..model import inline_locals
+    ctx.floor('C02.R4', 4)
+    # (a) a rename is left out of the DDL text only if the qualified name
+    #     did not change: the comparison covers module *and* name
+    ga = repo.func(f'{DELTA}.RenameObject._get_ast')
+    ctx.saw(ga)
+    g = CFG(ga.node)
+    nones = [n.id for n in g.nodes if n.kind == 'stmt' and isinstance(
+        n.ast, ast.Return) and (n.ast.value is None or norm(n.ast.value)
+                                == 'None')]
+    tests = [t for t in g.nodes if t.kind == 'test' and any(
+        g.edge_dominates(t.id, lab, n) for n in nones for lab in 'TF')]
+    if not nones or not tests:
+        raise AnalysisError('C02.R4: RenameObject._get_ast has no '
+                            'suppression branch any more')
+    for t in tests:
+        txt = inline_locals(ga.node, t.ast)
+        attrs = {(norm(a.value), a.attr) for a in ast.walk(t.ast)
+                 if isinstance(a, ast.Attribute) and a.attr in (
+                     'module', 'name')}
+        recv = {r for r, _ in attrs}
+        onesided = [r for r in recv
+                    if {a for rr, a in attrs if rr == r} != {'module',
+                                                             'name'}]
+        ok = not onesided
+        ctx.ob('C02.R4', 'RenameObject._get_ast:compares-qualified-name', ok,
+               f'the RENAME clause is dropped from the DDL when `{txt}` is '
+               f'false, which compares only part of the qualified name '
+               f'({sorted(attrs)}): moving an object to another module under '
+               f'the same short name yields no statement, and the migration '
+               f'leaves it where it was', ga.loc, sample=txt)
+    # (b) deleting a ref on a parent deletes the inherited copy in a child
+    #     only when the child neither owns it nor inherits it from another
+    #     parent
+    pf = repo.func('edb.schema.referencing.DeleteReferencedInheritingObject.'
+                   '_propagate_child_ref_deletion')
+    ctx.saw(pf)
+    g = CFG(pf.node)
+    dels = [n.id for n in g.nodes if n.kind == 'stmt' and isinstance(
+        n.ast, ast.Assign) and 'DeleteObject' in norm(n.ast.value)]
+    if not dels:
+        raise AnalysisError('C02.R4: DeleteObject branch of '
+                            '_propagate_child_ref_deletion not found')
+    for fid, facts, why in (
+            ('owned', {'child_ref.get_owned(schema)': True},
+             'a ref the child (re)declares itself survives the parent\'s '
+             'DROP (it is rebased instead)'),
+            ('other-parent', {'implicit_bases': True},
+             'a ref that another parent still defines survives the DROP on '
+             'this parent (diamond inheritance)')):
+        F = Facts(facts, pf.node)
+        on = open_nodes(g, F)
+        ok = bool(F.used) and not (set(dels) & on)
+        ctx.ob('C02.R4', f'_propagate_child_ref_deletion:{fid}', ok,
+               f'under {facts} the child\'s ref is still deleted (condition '
+               f'consulted: {bool(F.used)}); {why}. The result no longer '
+               f'equals the target schema and no DDL can repair it, because '
+               f'inherited refs have no text form', pf.loc,
+               sample=f'{facts} -> rebase, not delete')
+    # (c) inherited (not owned) refs are never rendered: their deletion is
+    #     implied by the parent's statement
+    da = repo.func('edb.schema.referencing.DeleteReferencedInheritingObject.'
+                   '_get_ast')
+    g = CFG(da.node)
+    F = Facts({'refctx is not None': True,
+               "self.get_orig_attribute_value('owned')": True}, da.node)
+    rets = [g.nodes[i].ast for i in sorted(open_nodes(g, F))
+            if g.nodes[i].kind == 'stmt' and isinstance(g.nodes[i].ast,
+                                                        ast.Return)]
+    ok = bool(F.used) and bool(rets) and all(
+        r.value is not None and 'super()._get_ast' in norm(r.value)
+        for r in rets)
+    ctx.ob('C02.R4', 'DeleteReferencedInheritingObject._get_ast:owned-rendered',
+           ok, 'the DROP of an owned ref is not rendered on every path',
+           da.loc, sample='owned -> super()._get_ast')
